@@ -533,7 +533,7 @@ def run(tier, procs=None, only=None):
 
 
 # every real-library oracle of this property (each returns (reproduced, detail)); used to confirm structural facts that carry no replay of their own
-ALL_REPLAYS = [lambda c: replay_shape((2, 3, 5), 'utils')(c), lambda c: replay_shape((3, 4, 4), 'backend')(c), lambda c: replay_weight((3, 4, 5), 2, False, 'utils')(c), lambda c: replay_weight((3, 4, 5), 2, True, 'backend')(c)]
+ALL_REPLAYS = [lambda c: replay_shape((2, 3, 5), 'utils')(c), lambda c: replay_shape((3, 4, 4), 'backend')(c), lambda c: replay_weight((3, 4, 5), 2, False, 'utils')(c), lambda c: replay_weight((3, 4, 5), 2, True, 'backend')(c), lambda c: replay_shape((2, 3, 4), 'utils')({'__int__': True}), lambda c: replay_shape((3, 2, 3), 'backend')({'__int__': True}), lambda c: replay_shape((2, 3, 4), 'utils')({'__history__': True})]
 
 
 def replay(data):
